@@ -150,6 +150,18 @@ func op_ptrarrayindex(st string) { var p *[3]int; if st == "valid" { p = &[3]int
 //go:noinline
 func op_ptrarraylen(st string) { var p *[3]int; if st == "valid" { p = &[3]int{1, 2, 3} }; sink = len(p) }
 //go:noinline
+func op_derefdiscard(st string) { var p *int; if st == "valid" { x := 3; p = &x }; _ = *p }
+//go:noinline
+func op_derefdiscardstruct(st string) { var p *smallS; if st == "valid" { p = &smallS{1, 2} }; _ = *p }
+//go:noinline
+func op_derefdiscardarray(st string) { var p *[3]int; if st == "valid" { p = &[3]int{1, 2, 3} }; _ = *p }
+//go:noinline
+func op_rangeptrarraykey(st string) { var p *[3]int; if st == "valid" { p = &[3]int{1, 2, 3} }; for i := range *p { sink += i } }
+//go:noinline
+func op_rangeptrarrayval(st string) { var p *[3]int; if st == "valid" { p = &[3]int{1, 2, 3} }; for _, v := range *p { sink += v } }
+//go:noinline
+func op_assertemptyiface(st string) { var s shaper; if st == "match" { s = sq{2} }; v := s.(any); sink = v.(sq).s }
+//go:noinline
 func op_methodptr(st string) { var p *smallS; if st == "valid" { p = &smallS{1, 2} }; sink = p.get() }
 //go:noinline
 func op_callfunc(st string) { var f func() int; if st == "valid" { f = func() int { return 1 } }; sink = f() }
@@ -205,6 +217,8 @@ var sink int
 var ops = map[string]func(string){
 	"mapwrite": op_mapwrite, "mapread": op_mapread, "mapdelete": op_mapdelete, "maplen": op_maplen,
 	"deref": op_deref, "fieldsmall": op_fieldsmall, "fieldlarge": op_fieldlarge, "ptrarrayindex": op_ptrarrayindex,
+	"derefdiscard": op_derefdiscard, "derefdiscardstruct": op_derefdiscardstruct, "derefdiscardarray": op_derefdiscardarray,
+	"rangeptrarraykey": op_rangeptrarraykey, "rangeptrarrayval": op_rangeptrarrayval, "assertemptyiface": op_assertemptyiface,
 	"ptrarraylen": op_ptrarraylen, "methodptr": op_methodptr, "callfunc": op_callfunc, "ifacemethod": op_ifacemethod,
 	"assertconcrete": op_assertconcrete, "assertiface": op_assertiface, "assertcomma": op_assertcomma,
 	"divint": op_divint, "modint": op_modint, "divint8": op_divint8, "divuint": op_divuint, "divconstzerovar": op_divconstzerovar,
